@@ -54,6 +54,8 @@ Failing == {n \in {"FinishedOnlyAfter", "QueryTruthPos", "QueryTruthZero", "Quer
 \* longer what was read from it.  A replacement by rename gives a new inode and leaves the old one untouched;
 \* write / truncate / open(O_TRUNC) on the visible name do not.
 InPlace(r) == IF (r.changed /\ r.sameino) \/ r.oldfd THEN {"TagInPlace"} ELSE {}
+\* ... and once status.tag has been seen, every later look finds it: a replacement leaves no window without the file
+Vanished(r) == IF tagF.k # "absent" /\ r.tag.k = "absent" THEN {"TagVanished"} ELSE {}
 
 TInit == Init /\ l = 1 /\ viol = {} /\ runid = "-" /\ tino = 0 /\ tsAt = 0
 
@@ -81,14 +83,14 @@ TTick == /\ l <= Len(Rec) /\ Rec[l].e = "tick"
 TObs == /\ l <= Len(Rec) /\ Rec[l].e = "tagobs"
         /\ tagF' = TagOf(Rec[l].tag)
         /\ tino' = Rec[l].ino
-        /\ viol' = viol \cup Failing \cup InPlace(Rec[l]) \cup
+        /\ viol' = viol \cup Failing \cup InPlace(Rec[l]) \cup Vanished(Rec[l]) \cup
                    (IF tino # 0 /\ Rec[l].ino = tino /\ TagOf(Rec[l].tag) # tagF THEN {"TagRenameOnly"} ELSE {})
         /\ l' = l + 1
         /\ UNCHANGED <<flags, fin, clock, latch, wpc, wloc, kkLeft, rdLeft, latchLeft, qs, tmpF, fd, reported,
                        everAllReady, timeupFired, allReadyAt, timeupAt, owed, written, last, runid, tsAt>>
 
 \* One actor message of one task.  op: the composite the task is executing (U update, R reset, T deadline, Q query),
-\* g: the gate (= actor message) it passed (upd | reset | get | setfin | getfin), first / done: first message of the
+\* g: the gate (= actor message) it passed (upd | reset | get | setfin | getfin; ask = a whole query as one step), first / done: first message of the
 \* composite / the composite returned after this message.  Nothing is assumed about which messages a composite
 \* sends or in which order: the ghosts follow the calls made and the reports they carry.
 TStep ==
@@ -128,14 +130,14 @@ TStep ==
                                 THEN [QIdle EXCEPT !.pc = "qstate", !.q = r.q, !.owed0 = owed, !.ev = allReadyAt,
                                                    !.inR0 = KKInReset]
                                 ELSE qs[r.i]
-                          q2 == IF r.g = "get" THEN [q1 EXCEPT !.fl = f2, !.rep = rep2, !.ev = Max(q1.ev, ev2)]
+                          q2 == IF r.g \in {"get", "ask"} THEN [q1 EXCEPT !.fl = f2, !.rep = rep2, !.ev = Max(q1.ev, ev2)]
                                 ELSE [q1 EXCEPT !.ev = Max(q1.ev, ev2)]
                           q3 == IF r.done
                                 THEN [q2 EXCEPT !.pc = "done", !.finished = r.finished, !.names = SetOf(r.names),
                                                 !.lat = r.lat, !.tu = timeupAt]
                                 ELSE q2
                       IN [qs EXCEPT ![r.i] = q3]
-  /\ viol' = viol \cup Failing \cup InPlace(Rec[l]) /\ l' = l + 1
+  /\ viol' = viol \cup Failing \cup InPlace(Rec[l]) \cup Vanished(Rec[l]) /\ l' = l + 1
   /\ UNCHANGED <<clock, kkLeft, rdLeft, latchLeft, tmpF, fd, last, runid, tino>>
 
 TNext == TRun \/ TTick \/ TObs \/ TStep
